@@ -798,9 +798,29 @@ class Replay:
     def _crashed_before(self):
         return any(x["a"] in ("raise", "reject", "dumpload") for x in self.bhv[: self.cur])
 
+    def json_round_trip(self):
+        """to_json / from_json through one of the three documented targets: a string, a file object, a path."""
+        import io
+        import os
+        import tempfile
+        form = self.var.rng.randrange(3)
+        if form == 0:
+            return Simulator.from_json(self.sim.to_json())
+        if form == 1:
+            buf = io.StringIO()
+            self.sim.to_json(buf)
+            buf.seek(0)
+            return Simulator.from_json(buf)
+        fd, path = tempfile.mkstemp(suffix=".json", prefix="verif-sim-")
+        os.close(fd)
+        try:
+            self.sim.to_json(path)
+            return Simulator.from_json(path)
+        finally:
+            os.unlink(path)
+
     def dump_load(self, snap):
-        js = self.sim.to_json()
-        sim2 = Simulator.from_json(js)
+        sim2 = self.json_round_trip()
         # the documented way to continue: give the loaded simulator its scheduler again
         self.sched = ScriptedScheduler(self, self.start["mr"])
         sim2.update_scheduler(self.sched)
